@@ -6,7 +6,10 @@
    answers "unknown option"; the harness never compares such vectors, it only fuzzes them).
    The file system and the terminal are an environment record: isdir (os.Stat), histok
    (NewHistory can read or create the file), tty (stdin is a terminal).
-   Err = the Go code would panic; Ok (Bad _) = it returns an error (fzf exits with status 2). *)
+   Err = the Go code would panic; Ok (Bad _) = it returns an error (fzf exits with status 2).
+   Positions: parseOptions(index *int, ...) numbers the words of the three sources consecutively (startIndex := *index;
+   index := i + startIndex; *index += len(allArgs)); --tmux and --height store the position at which they were read
+   (tmuxOptions.index, heightSpec.index) and fzf.Run starts the popup iff Tmux != nil && Tmux.index >= Height.index. *)
 From Coq Require Import String.
 From Fzf Require Import Prelude Val BindSpec BindModel OptionSpec.
 Open Scope Z_scope.
@@ -169,6 +172,77 @@ Definition parse_listen (addr : str) : option val :=
       end
   end.
 
+(* regexp.MustCompile("[,:]+").Split(s, -1): the pieces between maximal runs of ',' and ':' (a leading / trailing run
+   gives an empty first / last piece; the empty string gives one empty piece) *)
+Definition is_cc (c : Z) : bool := (c =? COMMA) || (c =? COLON).
+Fixpoint split_cc (cur : str) (insep : bool) (s : str) : list str :=
+  match s with
+  | [] => [rev cur]
+  | c :: r => if is_cc c then (if insep then split_cc [] true r else rev cur :: split_cc [] true r)
+              else split_cc (c :: cur) false r
+  end.
+
+(* parseSize(str, 100, "size"); a percentage is read as an integer here (Go: ParseFloat, see parse_height) *)
+Definition parse_size100 (s : str) : option val :=
+  if has_suffix [37] s then
+    match atoi (firstn (length s - 1) s) with
+    | Some v => if (v <? 0) || (100 <? v) then None else Some (sz v true)
+    | None => None
+    end
+  else if contains [DOT] s then None
+  else match atoi s with
+       | Some v => if v <? 0 then None else Some (sz v false)
+       | None => None
+       end.
+
+Definition s_border_native : str := Eval vm_compute in b "border-native".
+Definition s_center : str := Eval vm_compute in b "center".
+Definition s_top : str := Eval vm_compute in b "top".       Definition s_up : str := Eval vm_compute in b "up".
+Definition s_bottom : str := Eval vm_compute in b "bottom". Definition s_down : str := Eval vm_compute in b "down".
+Definition s_left : str := Eval vm_compute in b "left".     Definition s_right : str := Eval vm_compute in b "right".
+
+(* tokens = append(tokens[:i], tokens[i+1:]...) for the first token equal to x *)
+Fixpoint cut_first (x : str) (l : list str) : option (list str) :=
+  match l with
+  | [] => None
+  | t :: r => if str_eqb t x then Some r
+              else match cut_first x r with Some r' => Some (t :: r') | None => None end
+  end.
+
+(* parseTmuxOptions *)
+Definition parse_tmux (a : str) : option val :=
+  let tokens := split_cc [] false a in
+  if Nat.ltb 4 (length tokens) then None
+  else
+    let '(tokens, border) := match cut_first s_border_native tokens with Some t => (t, true) | None => (tokens, false) end in
+    let first := match tokens with t :: _ => t | [] => s_center end in
+    let full := sz 100 true in let half := sz 50 true in
+    let '(pos, w, h, tokens) :=
+      if str_eqb first s_top || str_eqb first s_up then (P_UP, full, half, tokens)
+      else if str_eqb first s_bottom || str_eqb first s_down then (P_DOWN, full, half, tokens)
+      else if str_eqb first s_left then (P_LEFT, half, full, tokens)
+      else if str_eqb first s_right then (P_RIGHT, half, full, tokens)
+      else if str_eqb first s_center then (P_CENTER, half, half, tokens)
+      else (P_CENTER, half, half, s_center :: tokens) in
+    match tokens with
+    | _ :: t1 :: rest =>
+        match parse_size100 t1 with
+        | None => None
+        | Some size1 =>
+            match rest with
+            | [] => if (pos =? P_UP) || (pos =? P_DOWN) then Some (mk_tmux pos w size1 border)
+                    else if (pos =? P_LEFT) || (pos =? P_RIGHT) then Some (mk_tmux pos size1 h border)
+                    else Some (mk_tmux pos size1 size1 border)
+            | [t2] => match parse_size100 t2 with
+                      | Some size2 => Some (mk_tmux pos size1 size2 border)
+                      | None => None
+                      end
+            | _ => Some (mk_tmux pos w h border)              (* four tokens: the first size is checked, nothing is assigned *)
+            end
+        end
+    | _ => Some (mk_tmux pos w h border)
+    end.
+
 Definition run_parser (p : pid) (s : str) : option (list val) :=
   match p with
   | PStr => Some [vstr s]
@@ -183,7 +257,7 @@ Definition run_parser (p : pid) (s : str) : option (list val) :=
   | PDelim => Some [vsome (vstr (delim_unescape s))]
   | PLayout => if str_eqb s s_default then Some [VI 0] else if str_eqb s s_reverse then Some [VI 1]
                else if str_eqb s s_reverse_list then Some [VI 2] else None
-  | PHeight => match parse_height s with Some v => Some [v] | None => None end
+  | PHeight => match parse_height s with Some v => Some [v; T] | None => None end   (* T: the spec's F_HAFTER *)
   | PLines => Some [vstrs (str_lines s)]
   | PWalker => match walker_loop (split_on COMMA (to_lower s)) false false false false with Some v => Some [v] | None => None end
   | PSkip => Some [vstrs (filter nonemptyb (split_on COMMA s))]
@@ -197,7 +271,8 @@ Inductive okind :=
 | KOptNum (f : field) (dflt : Z)         (* optionalNumeric *)
 | KListen (unsafe : bool)                (* optionalNextString + parseListenAddress *)
 | KDirs (f : field)                      (* nextDirs *)
-| KHistory | KHistorySize | KExpect | KNoExpect | KBind.
+| KHistory | KHistorySize | KExpect | KNoExpect | KBind
+| KTmux.                                 (* optionalNextString + parseTmuxOptions(str, index) *)
 
 Definition fl (names : list string) (ws : list (field * val)) : list (str * okind) :=
   map (fun n => (b n, KFlag ws)) names.
@@ -234,7 +309,8 @@ Definition opt_table : list (str * okind) := Eval vm_compute in
   ++ fl ["--no-history"]%string [(F_HISTORY, vnone)]
   ++ fl ["--no-header"]%string [(F_HEADER, VL [])] ++ fl ["--no-header-lines"]%string [(F_HEADERLINES, VI 0)]
   ++ onoff "header-first" F_HEADERFIRST ++ fl ["--no-gap"]%string [(F_GAP, VI 0)]
-  ++ fl ["--no-preview"]%string [(F_PREVIEW, VL [])] ++ fl ["--no-height"]%string [(F_HEIGHT, height_zero)]
+  ++ fl ["--no-preview"]%string [(F_PREVIEW, VL [])] ++ fl ["--no-height"]%string [(F_HEIGHT, height_zero); (F_HEIGHTIDX, VI 0); (F_HAFTER, Fv)]
+  ++ fl ["--no-tmux"]%string [(F_TMUX, vnone); (F_TMUXIDX, VI 0)]
   ++ onoff "unicode" F_UNICODE ++ onoff "ambidouble" F_AMBIDOUBLE
   ++ fl ["--no-listen"; "--no-listen-unsafe"]%string [(F_LISTEN, vnone); (F_UNSAFE, Fv)]
   ++ onoff "clear" F_CLEAR ++ onoff "force-tty-in" F_FORCETTY
@@ -249,24 +325,25 @@ Definition opt_table : list (str * okind) := Eval vm_compute in
   ++ rq ["--info-command"]%string [F_INFOCMD] PStr ++ rq ["--ghost"]%string [F_GHOST] PStr ++ rq ["--prompt"]%string [F_PROMPT] PStr
   ++ rq ["--header"]%string [F_HEADER] PLines ++ rq ["--header-lines"]%string [F_HEADERLINES] PInt
   ++ rq ["--hscroll-off"]%string [F_HSCROLLOFF] PInt ++ rq ["--scroll-off"]%string [F_SCROLLOFF] PInt ++ rq ["--tabstop"]%string [F_TABSTOP] PInt
-  ++ rq ["--preview"]%string [F_PREVIEW] PStr ++ rq ["--height"]%string [F_HEIGHT] PHeight ++ rq ["--with-shell"]%string [F_WITHSHELL] PStr
+  ++ rq ["--preview"]%string [F_PREVIEW] PStr ++ rq ["--height"]%string [F_HEIGHT; F_HAFTER] PHeight ++ rq ["--with-shell"]%string [F_WITHSHELL] PStr
   ++ rq ["--walker"]%string [F_WALKER] PWalker ++ rq ["--walker-skip"]%string [F_WALKERSKIP] PSkip
   ++ [(b "-s", KOptNum F_SORT 1); (b "--sort", KOptNum F_SORT 1); (b "-m", KOptNum F_MULTI MAX_MULTI);
       (b "--multi", KOptNum F_MULTI MAX_MULTI); (b "--gap", KOptNum F_GAP 1);
       (b "--listen", KListen false); (b "--listen-unsafe", KListen true); (b "--walker-root", KDirs F_WALKERROOT);
       (b "--history", KHistory); (b "--history-size", KHistorySize); (b "--expect", KExpect);
-      (b "--no-expect", KNoExpect); (b "--bind", KBind)].
+      (b "--no-expect", KNoExpect); (b "--bind", KBind); (b "--tmux", KTmux)].
 
 Definition kind_writes (k : okind) : list field :=
   match k with
   | KFlag ws => map fst ws
-  | KReq fs _ => fs
+  | KReq fs p => fs ++ match p with PHeight => [F_HEIGHTIDX] | _ => [] end
   | KOptNum f _ => [f]
   | KListen _ => [F_LISTEN; F_UNSAFE]
   | KDirs f => [f]
   | KHistory => [F_HISTORY; F_HISTMAX]
   | KHistorySize => [F_HMAXLOCAL; F_HISTMAX]
   | KExpect | KNoExpect | KBind => []
+  | KTmux => [F_TMUX; F_TMUXIDX; F_HAFTER]
   end.
 
 Definition consumes_val (k : okind) : bool :=
@@ -333,14 +410,21 @@ Fixpoint take_dirs (e : env) (l : list str) : list str :=
 
 Definition history_set (c : cfg) : bool := match fv c F_HISTORY with VL (_ :: _) => true | _ => false end.
 
-Definition exec (e : env) (k : okind) (v : option str) (c : cfg) (rest : list str) : res (outcome (cfg * nat)) :=
+(* parseHeight(str, index) records the position *)
+Definition stamp_req (p : pid) (pos : nat) (c : cfg) : cfg :=
+  match p with PHeight => setf F_HEIGHTIDX (vnat pos) c | _ => c end.
+
+Definition tmux_ws (t : val) (pos : nat) : list (field * val) := [(F_TMUX, vsome t); (F_TMUXIDX, vnat pos); (F_HAFTER, Fv)].
+
+(* pos = index = i + startIndex: the position of the option word being handled *)
+Definition exec (e : env) (pos : nat) (k : okind) (v : option str) (c : cfg) (rest : list str) : res (outcome (cfg * nat)) :=
   match k with
   | KFlag ws => Ok (Good (setfs ws c, 0%nat))
   | KReq fs p =>
       match next_string v rest with
       | None => Ok (Bad E_VALUE_REQUIRED)
       | Some (s, n) => match run_parser p s with
-                       | Some vals => Ok (Good (setfs (combine fs vals) c, n))
+                       | Some vals => Ok (Good (stamp_req p pos (setfs (combine fs vals) c), n))
                        | None => Ok (Bad E_BAD_VALUE)
                        end
       end
@@ -416,13 +500,28 @@ Definition exec (e : env) (k : okind) (v : option str) (c : cfg) (rest : list st
           | Bad x => Ok (Bad x)
           end
       end
+  | KTmux =>
+      let given := match v with
+                   | Some x => Some (x, 0%nat)
+                   | None => match rest with
+                             | a :: _ => if starts_with DASH a || starts_with PLUS a then None else Some (a, 1%nat)
+                             | [] => None
+                             end
+                   end in
+      match given with
+      | None => Ok (Good (setfs (tmux_ws default_tmux pos) c, 0%nat))
+      | Some (s, n) => match parse_tmux s with
+                       | Some t => Ok (Good (setfs (tmux_ws t pos) c, n))
+                       | None => Ok (Bad E_BAD_VALUE)
+                       end
+      end
   end.
 
-Definition step (e : env) (c : cfg) (a : str) (rest : list str) : res (outcome (cfg * nat)) :=
+Definition step (e : env) (pos : nat) (c : cfg) (a : str) (rest : list str) : res (outcome (cfg * nat)) :=
   match resolve a with
   | None => Ok (Bad E_UNKNOWN_OPTION)
   | Some (k, v) =>
-      do o <- exec e k v c rest;
+      do o <- exec e pos k v c rest;
       match o with
       | Bad x => Ok (Bad x)
       | Good (c', n) =>
@@ -431,17 +530,18 @@ Definition step (e : env) (c : cfg) (a : str) (rest : list str) : res (outcome (
       end
   end.
 
-(* for ; i < len(allArgs); i++ — `skip` arguments were consumed as values by the previous step *)
-Fixpoint go (e : env) (c : cfg) (skip : nat) (args : list str) : res (outcome cfg) :=
+(* for ; i < len(allArgs); i++ — `skip` arguments were consumed as values by the previous step;
+   pos = i + startIndex is the position of the head of args *)
+Fixpoint go (e : env) (c : cfg) (pos : nat) (skip : nat) (args : list str) : res (outcome cfg) :=
   match args with
   | [] => Ok (Good c)
   | a :: rest =>
       match skip with
-      | S k => go e c k rest
-      | O => do o <- step e c a rest;
+      | S k => go e c (S pos) k rest
+      | O => do o <- step e pos c a rest;
              match o with
              | Bad x => Ok (Bad x)
-             | Good (c', n) => go e c' n rest
+             | Good (c', n) => go e c' (S pos) n rest
              end
       end
   end.
@@ -459,22 +559,22 @@ Definition end_validate (c : cfg) : outcome cfg :=
 Definition layer_init (c : cfg) : cfg :=
   setf F_HMAXLOCAL (if history_set c then fv c F_HISTMAX else VI 1000) c.
 
-(* parseOptions(&index, opts, allArgs) *)
-Definition parse_layer (e : env) (c : cfg) (args : list str) : res (outcome cfg) :=
-  do o <- go e (layer_init c) 0 args;
+(* parseOptions(&index, opts, allArgs), start = *index on entry; on return *index = start + len(allArgs) *)
+Definition parse_layer (e : env) (start : nat) (c : cfg) (args : list str) : res (outcome cfg) :=
+  do o <- go e (layer_init c) start 0 args;
   match o with
   | Bad x => Ok (Bad x)
   | Good c' => Ok (end_validate c')
   end.
 
-Fixpoint parse_layers (e : env) (c : cfg) (layers : list (list str)) : res (outcome cfg) :=
+Fixpoint parse_layers (e : env) (start : nat) (c : cfg) (layers : list (list str)) : res (outcome cfg) :=
   match layers with
   | [] => Ok (Good c)
   | l :: r =>
-      do o <- parse_layer e c l;
+      do o <- parse_layer e start c l;
       match o with
       | Bad x => Ok (Bad x)
-      | Good c' => parse_layers e c' r
+      | Good c' => parse_layers e (start + length l) c' r
       end
   end.
 
@@ -491,7 +591,8 @@ Definition default_cfg : cfg :=
           (F_WALKER, VL [T; Fv; T; T]); (F_WALKERROOT, vstrs [[DOT]]); (F_WALKERSKIP, vstrs [s_dotgit; s_node_modules]);
           (F_PROMPT, vstr s_prompt); (F_GHOST, VL []); (F_TABSTOP, VI 8); (F_HSCROLLOFF, VI 10); (F_SCROLLOFF, VI 3);
           (F_MOUSE, T); (F_BOLD, T); (F_HSCROLL, T); (F_MULTILINE, T); (F_CLEAR, T); (F_UNICODE, T);
-          (F_INFOCMD, VL []); (F_WITHSHELL, VL []); (F_PREVIEW, VL []); (F_HMAXLOCAL, VI 1000) ]
+          (F_INFOCMD, VL []); (F_WITHSHELL, VL []); (F_PREVIEW, VL []); (F_HMAXLOCAL, VI 1000);
+          (F_TMUX, vnone) ]
         (mkCfg (fun _ => VI 0) [] []).
 
 Definition s_reload : str := Eval vm_compute in b "reload".
@@ -518,7 +619,7 @@ Definition finalize (e : env) (c : cfg) : cfg :=
 
 (* ParseOptions(useDefaults = true, args): empty file/env layers are skipped, the command line never is *)
 Definition parse_all (e : env) (file envw argv : list str) : res (outcome cfg) :=
-  do o <- parse_layers e default_cfg (filter nonemptyb [file; envw] ++ [argv]);
+  do o <- parse_layers e 0 default_cfg (filter nonemptyb [file; envw] ++ [argv]);
   match o with
   | Bad x => Ok (Bad x)
   | Good c => Ok (Good (finalize e c))
@@ -533,3 +634,7 @@ Definition cli (e : env) (file envw argv : list str) : res cli_result :=
   | Good c => Ok (Config c)
   | Bad x => Ok (ExitWith EXIT_ERROR x)
   end.
+
+(* core.go Run: opts.Tmux != nil && opts.Tmux.index >= opts.Height.index (inside tmux, without --filter) *)
+Definition popup_impl (c : cfg) : bool :=
+  is_some (fv c F_TMUX) && (as_int (fv c F_HEIGHTIDX) <=? as_int (fv c F_TMUXIDX)).
